@@ -1,7 +1,9 @@
 package simenv
 
 import (
+	"bytes"
 	"crypto/sha256"
+	"encoding/json"
 	"errors"
 	"fmt"
 	"sort"
@@ -472,8 +474,20 @@ func (v *SimTimeValidator) Validate(from, until int64) error {
 	return nil
 }
 
-// ReqKey identifies an operation request independent of JSON spelling.
+// ReqKey identifies an operation request independent of JSON spelling (member order, whitespace, escapes):
+// the request is decoded and re-encoded with sorted member names before hashing.
 func ReqKey(req []byte) string {
+	var v interface{}
+
+	dec := json.NewDecoder(bytes.NewReader(req))
+	dec.UseNumber()
+
+	if err := dec.Decode(&v); err == nil {
+		if b, err := json.Marshal(v); err == nil {
+			req = b
+		}
+	}
+
 	h := sha256.Sum256(req)
 
 	return fmt.Sprintf("%x", h[:8])
